@@ -44,7 +44,7 @@ def decoder_sweep(ctx, n):
         b = vals.rb(rng, ln)
         if ln == 32:
             m = ref.ed_decompress(b)
-            ctx.add('ed.fromslice', hx(b), expect=[b.hex()] + (['none'] if m is None else [ref.ed_compress(m).hex()]), cls='slice')
+            ctx.add('ed.fromslice', hx(b), expect=([b.hex(), 'none'] if m is None else pts.both(pts.tok_is(0, b.hex()), pts.expect_ed(m, idx=1))), cls='slice')
             ctx.add('ed.tryfrom', hx(b), expect=[b.hex()], cls='slice')
         else:
             ctx.add('ed.fromslice', hx(b), expect=['err'], cls='slice')
